@@ -117,6 +117,7 @@ def run(ctx, rep):
     _c07.rule_guard(ctx, rep)  # the address a handle reports is that of the block it owns: a replacement behind with_arc_mut's transient is stored back on both exits
     balance.rule_zst_div(ctx, rep)  # the round trip works "for every payload size ... including zero-sized types"
     balance.rule_writeback(ctx, rep)
+    balance.rule_release_retarget(ctx, rep)  # (a hand-written `clone_from` that releases before it stores leaves the handle with the released address when the release unwinds)
     c10.rule_thick(ctx, rep)  # a thin handle taken back from its raw pointer shows the slice its block holds: the length is read from that block's own header
     for tag, F, E in ctx.each(da=False):
         N = ptrclass.Norm(F)
